@@ -36,6 +36,7 @@ class FnInfo:
         self.raises = set()        # own escaping exception class names: (exc, lineno, origin)
         self.constructs = set()    # class names constructed (Name(...) calls resolving to classes)
         self.is_property = False
+        self.mutations = set()     # locations whose container is changed in place (append, pop, item store, del, ...)
 
 
 class Program:
@@ -330,6 +331,7 @@ class Program:
             if isinstance(base, ast.Name) and base.id in params:
                 kind = 'default' if base.id in mutable_defaults else 'param'
                 f.writes.add(('%s:%s.%s' % (kind, f.qual, base.id), ln, self._line(f, ln)))
+                f.mutations.add('%s:%s.%s' % (kind, f.qual, base.id))
             return
         for part in (r.split('|') if r.startswith('field:') and '|' in r else [r]):
             if r.startswith('field:') and '|' in r:
@@ -338,6 +340,7 @@ class Program:
                 if not part.endswith('.' + attr):
                     part = part + '.' + attr
             f.writes.add((part, ln, self._line(f, ln)))
+            f.mutations.add(part)
 
     # ------------------------------------------------------------------ calls
     def _call(self, f, n, local_names):
